@@ -23,6 +23,9 @@ source on disk is never touched; node positions are kept, so reports still point
   5. loops over a short literal tuple / list of *variables* (``for src in (self.resources, overrides): d.update(src)``)
      are unrolled (``Unroll``); loops over constants (slot-name tables) keep their shape.
 
+  7. helpers imported *by name* from a private module of the package (``from ._priv import helper``) are expanded like the
+     module's own private helpers when every free name of their body means the same in both modules (``collect_imported_helpers``).
+
 Anything the inliner cannot restructure soundly (returns inside nested loops, ``finally`` with a pending
 continuation, ...) is left as the call it was: normalisation never guesses.
 """
@@ -865,6 +868,8 @@ class Inliner(object):
     def __init__(self, tree, anchors, foreign=None):
         self.tree = tree
         self.mod_helpers, self.cls_helpers = collect_helpers(tree, anchors)
+        for k, h in getattr(tree, '_vt_imported_helpers', {}).items():
+            self.mod_helpers.setdefault(k, h)     # helpers imported by name from a private module of the package
         self.named_cls_helpers = collect_named_class_helpers(tree, anchors)
         # foreign(name) -> True when another module of the analysed tree mentions ``name`` (None: unknown, assume it does)
         self.foreign = foreign
@@ -1771,12 +1776,81 @@ class Unroll(ast.NodeTransformer):
         return out
 
 
-def normalize_tree(tree, foreign=None):
+def _module_bindings(tree):
+    """name -> number of binding occurrences anywhere in the module (defs, stores, parameters, imports, ``global``)."""
+    out = {}
+    for x in ast.walk(tree):
+        k = None
+        if isinstance(x, (ast.FunctionDef, ast.AsyncFunctionDef, ast.ClassDef)):
+            k = [x.name]
+        elif isinstance(x, ast.Name) and isinstance(x.ctx, (ast.Store, ast.Del)):
+            k = [x.id]
+        elif isinstance(x, ast.arg):
+            k = [x.arg]
+        elif isinstance(x, ast.alias):
+            k = [(x.asname or x.name).split('.')[0]]
+        elif isinstance(x, (ast.Global, ast.Nonlocal)):
+            k = list(x.names) * 2
+        elif isinstance(x, ast.ExceptHandler) and x.name:
+            k = [x.name]
+        for n in k or ():
+            out[n] = out.get(n, 0) + 1
+    return out
+
+
+def collect_imported_helpers(tree, anchors, imported):
+    """Helpers that live in a *private module* of the analysed package and that this module imports by name at its top level
+    (``from ._priv import helper``): name -> Helper, expanded at their calls like the module's own private helpers.
+    ``imported(ImportFrom node)`` -> the parsed (raw) tree of the module the statement names, or None.  A function qualifies when
+      * the module's own name is private (``_x``, not dunder) and no rule names the module or the function;
+      * the name is bound exactly once in this module (the import itself) and exactly once in the other (a top-level plain def);
+      * it is eligible like a private helper (no generator, recursion, nested definitions, decorators ...);
+      * every free name of its body means the same thing in both modules: bound nowhere in either (a builtin), or bound once at
+        the top level of the other module and imported from there under the same name, once, by this module."""
+    out = {}
+    if imported is None:
+        return out
+    here = None
+    for st in tree.body:
+        if not isinstance(st, ast.ImportFrom) or not st.module:
+            continue
+        last = st.module.split('.')[-1]
+        if not last.startswith('_') or last.startswith('__') or last in anchors:
+            continue
+        other = imported(st)
+        if other is None:
+            continue
+        if here is None:
+            here = _module_bindings(tree)
+        there = _module_bindings(other)
+        same = set(a.name for a in st.names if a.asname in (None, a.name) and here.get(a.name) == 1 and there.get(a.name) == 1 and
+                   any(isinstance(o, (ast.FunctionDef, ast.ClassDef)) and o.name == a.name or
+                       isinstance(o, ast.Assign) and len(o.targets) == 1 and isinstance(o.targets[0], ast.Name) and o.targets[0].id == a.name
+                       for o in other.body))
+        for a in st.names:
+            if a.name not in same or a.name in anchors:
+                continue
+            defs = [o for o in other.body if isinstance(o, ast.FunctionDef) and o.name == a.name]
+            if len(defs) != 1 or _eligible_def(defs[0], any_name=True) != 'func':
+                continue
+            fn = defs[0]
+            local = set(_stored_names(fn.body)) | set(x.arg for x in ast.walk(fn.args) if isinstance(x, ast.arg))
+            free = set(n.id for n in ast.walk(fn) if isinstance(n, ast.Name)) - local
+            if all((g in same) or (not here.get(g) and not there.get(g)) for g in free):
+                fn = Canon({}).visit(copy.deepcopy(fn))
+                out[a.name] = Helper(fn, 'func')
+    return out
+
+
+def normalize_tree(tree, foreign=None, imported=None):
     """Stage 1 (intra-module).  Returns (tree, number of rewrites).  ``foreign(name)`` tells whether another module of
-    the analysed tree mentions ``name`` (needed before a private definition may be treated as local to this module)."""
+    the analysed tree mentions ``name`` (needed before a private definition may be treated as local to this module);
+    ``imported(ImportFrom)`` hands out the parsed tree of a module of the package this one imports from (see
+    collect_imported_helpers)."""
     from . import normalize2
     consts = module_const_tuples(tree)
     tree = Canon(consts).visit(tree)
+    tree._vt_imported_helpers = collect_imported_helpers(tree, anchor_names(), imported)
     n = normalize2.hoist_walrus(tree)
     n += normalize2.forward_lazy_temps(tree)
     n += normalize2.split_chain_loops(tree)
